@@ -38,6 +38,11 @@ UNKNOWN_REGEX = re.compile(
     r","
 )
 
+# Pattern to recognize the register part of an indexed operand: R, R+, R++, -R, --R or PCR
+INDEX_REGISTER_REGEX = re.compile(
+    r"^(-{0,2}[XYUS]|[XYUS]\+{0,2}|PCR)$"
+)
+
 # Recognized register names
 REGISTERS = ["A", "B", "D", "X", "Y", "U", "S", "CC", "DP", "PC"]
 
@@ -550,6 +555,9 @@ class ExtendedIndexedOperand(Operand):
                 max_size=size,
             )
 
+        if not INDEX_REGISTER_REGEX.match(self.right):
+            raise OperandTypeError("[{}] is not an index register".format(self.right))
+
         raw_post_byte = 0x80
         post_byte_choices = []
         size = self.instruction.mode.ind_sz
@@ -581,6 +589,8 @@ class ExtendedIndexedOperand(Operand):
                 raw_post_byte |= 0x14
 
         elif self.left == "A" or self.left == "B" or self.left == "D":
+            if "+" in self.right or "-" in self.right:
+                raise OperandTypeError("[{}] invalid indexed expression".format(self.operand_string))
             if self.left == "A":
                 raw_post_byte |= 0x16
             if self.left == "B":
@@ -683,6 +693,9 @@ class IndexedOperand(Operand):
             raise OperandTypeError(
                 "Instruction [{}] does not support indexed addressing".format(self.instruction.mnemonic)
             )
+        if not INDEX_REGISTER_REGEX.match(self.right):
+            raise OperandTypeError("[{}] is not an index register".format(self.right))
+
         raw_post_byte = 0x00
         post_byte_choices = []
         size = self.instruction.mode.ind_sz
@@ -716,6 +729,8 @@ class IndexedOperand(Operand):
                 raw_post_byte |= 0x04
 
         elif self.left == "A" or self.left == "B" or self.left == "D":
+            if "+" in self.right or "-" in self.right:
+                raise OperandTypeError("[{}] invalid indexed expression".format(self.operand_string))
             raw_post_byte |= 0x80
             if self.left == "A":
                 raw_post_byte |= 0x06
